@@ -559,7 +559,11 @@ func func_Multiply(rtParams FunctionParameterTypes, val any) (any, error) {
 const FT_Modulo FT_FunctionType = "Modulo"
 
 func func_Modulo(rtParams FunctionParameterTypes, val any) (any, error) {
-	return func_decimal(rtParams, val, decimal.Decimal.Mod, FT_Modulo)
+	return func_decimal(rtParams, val, func(a, b decimal.Decimal) decimal.Decimal {
+		// a - b*trunc(a/b), exactly: decimal.Decimal.Mod rounds the quotient to 16 places before it truncates it
+		_, r := a.QuoRem(b, 0)
+		return r
+	}, FT_Modulo)
 }
 
 const FT_AnyOf FT_FunctionType = "AnyOf"
